@@ -839,6 +839,9 @@ def run(ctx):
     # a value remembered for later calls is keyed by every argument it depends on (nqsa/memo.py)
     from .. import memo
     memo.check(ctx, "C05.K", ['netqasm.sdk.builder', 'netqasm.sdk.futures', 'netqasm.sdk.connection'])
+    # no type test that an earlier type test has already decided (a subclass tested after its base class: nqsa/shadow.py)
+    from .. import shadow
+    shadow.check(ctx, "C05.H", ['netqasm.sdk.builder', 'netqasm.sdk.futures', 'netqasm.sdk.connection'])
 
 
 BF = "netqasm/sdk/builder.py"
